@@ -1,6 +1,6 @@
 """lemmas for the scoring wrappers (C04)"""
 from pyvc.api import spec, lemma, implies, Int, Real, Bool, Str, CSet, Seq, Ballot, Profile, Opt, Dict, Fraction
-from specs.base import vec_ok, repl
+from specs.base import vec_ok, repl, desc
 from specs.scoring import repl_len
 
 
@@ -18,3 +18,14 @@ def zeros_after_one(n: Int) -> Bool:
 @lemma(hint=lambda n: zeros_after_one(n))
 def one_zeros_ok(n: Int) -> Bool:
     return implies(n >= 0, vec_ok((Fraction(1),) + repl(0, n), len((Fraction(1),) + repl(0, n))))
+
+
+@lemma(induct="k")
+def desc_len(n: Int, k: Int) -> Bool:
+    return implies(k >= 0, len(desc(n, k)) == k)
+
+
+@lemma(induct="k", hint=lambda n, k: desc_len(n, k - 1) and desc_len(n, k - 2) and vec_ok_left(desc(n, k - 1), (Fraction(n - k + 1),), k - 1))
+def desc_ok(n: Int, k: Int) -> Bool:
+    """(n, n-1, ..., n-k+1) is a valid score vector as long as its entries stay non-negative"""
+    return implies(0 <= k and k <= n + 1, vec_ok(desc(n, k), k) and implies(k >= 1, desc(n, k)[k - 1] == n - k + 1))
